@@ -70,6 +70,7 @@ int main(int argc, char ** argv)
    verif::ReplayDoc doc; const verif::ReplayDoc * rp = NULL;
    if (!args.replay.empty()) { if (!doc.Load(args.replay)) { fprintf(stderr, "cannot read %s\n", args.replay.c_str()); return 3; } rp = &doc; }
    int layout = 2; if (args.kv.count("layout")) layout = atoi(args.kv["layout"].c_str());
+   const bool ces = (rp != NULL) || (args.kv.count("check-every-step") && atoi(args.kv["check-every-step"].c_str()) != 0);
    double used = 0;
    for (size_t i = 0; i < sizeof(parts) / sizeof(parts[0]); i++) {
       const PartSpec & ps = parts[i];
@@ -82,9 +83,9 @@ int main(int argc, char ** argv)
       used += ps.share;
       const double dl = args.part.empty() ? args.t0 + args.deadline * 0.9 * std::min(1.0, used) : args.t0 + args.deadline * 0.9;
       int r = 0;
-      if (ps.kind == 0)      { HtModel<PlainT, 0> m(ps.mask, ps.startSet, th, layout); r = RunPart(m, ps, depth, args, res, dl, rp); }
-      else if (ps.kind == 1) { HtModel<OKeysT, 1> m(ps.mask, ps.startSet, th, layout); r = RunPart(m, ps, depth, args, res, dl, rp); }
-      else                   { HtModel<OValsT, 2> m(ps.mask, ps.startSet, th, layout); r = RunPart(m, ps, depth, args, res, dl, rp); }
+      if (ps.kind == 0)      { HtModel<PlainT, 0> m(ps.mask, ps.startSet, th, layout, ces); r = RunPart(m, ps, depth, args, res, dl, rp); }
+      else if (ps.kind == 1) { HtModel<OKeysT, 1> m(ps.mask, ps.startSet, th, layout, ces); r = RunPart(m, ps, depth, args, res, dl, rp); }
+      else                   { HtModel<OValsT, 2> m(ps.mask, ps.startSet, th, layout, ces); r = RunPart(m, ps, depth, args, res, dl, rp); }
       if (rp) return r;
    }
    if (rp) { fprintf(stderr, "replay file names unknown part '%s'\n", doc.Str("part").c_str()); return 3; }
